@@ -49,6 +49,7 @@ MAP = [
  ("non-finite numpy constant", ["C01"]),
  ("independent statements depends on the hash seed", ["C15"]),
  ("explicit array bounds in a user type", ["C03"]),
+ ("parentheses around quotient factors", ["C03"]),
 ]
 def main():
     log = subprocess.run(["git", "-C", "/repo", "log", "--reverse", "--format=%h %s"],
